@@ -64,7 +64,11 @@ pub fn check_prog(c: &ProgCase, rec: &mut CaseRec) -> Verdict {
         if got_text != want_text {
             return Verdict::fail("output-differs", format!("want {:?} got {:?}; {}", want_text, got_text, show()));
         }
-        if got_err != want_err {
+        let runaway = m.runaway_function_recursion && matches!((&got_err, &want_err), (Some((ErrKind::StackOverflow, _)), Some((ErrKind::StackOverflow, _))));
+        if runaway {
+            rec.class("runaway-function-recursion(line-not-compared)");
+        }
+        if got_err != want_err && !runaway {
             let key = if c.seed != 0 && false { "" } else { "outcome-differs" };
             return Verdict::fail(key, format!("want {:?} got {:?} (text {:?}); {}", want_err, stop, got_text, show()));
         }
